@@ -70,6 +70,8 @@ pub struct Swarm {
     pub p_null: u32,
     pub p_multi_insert: u32,
     pub max_rows_per_insert: usize,
+    #[serde(default)]
+    pub min_rows_per_insert: usize,
     pub apis: Vec<Api>,
     pub bulk_apis: Vec<BulkApi>,
     pub key_domain: i64,
@@ -402,7 +404,7 @@ impl Gen {
 
     fn gen_insert(&mut self, rng: &mut Rng, sw: &Swarm, st: &DbState, t: &MTable, aim_fail: bool) -> Op {
         let nrows = if rng.chance(sw.p_multi_insert as u64, 100) {
-            rng.range(2, sw.max_rows_per_insert.max(2) as i64) as usize
+            rng.range(sw.min_rows_per_insert.max(2) as i64, sw.max_rows_per_insert.max(sw.min_rows_per_insert.max(2) + 1) as i64) as usize
         } else {
             1
         };
@@ -907,6 +909,7 @@ pub fn swarm_for(profile: &str, rng: &mut Rng, thorough: bool) -> Swarm {
         long_max: if rng.chance(1, 4) { 20_000 } else { 5_000 },
         p_null: 12,
         p_multi_insert: 35,
+        min_rows_per_insert: 0,
         p_medium: 0,
         max_rows_per_insert: rng.range(2, 8) as usize,
         apis: vec![Api::Literal],
@@ -1109,7 +1112,8 @@ pub fn swarm_for(profile: &str, rng: &mut Rng, thorough: bool) -> Swarm {
                 if !sw.types.contains(&Ty::Text) {
                     sw.types.push(Ty::Text);
                 }
-                sw.max_rows_per_insert = 64;
+                sw.max_rows_per_insert = 72;
+                sw.min_rows_per_insert = 40;
                 sw.p_multi_insert = 90;
                 sw.w.insert *= 3;
                 sw.w.begin = 10;
